@@ -42,7 +42,7 @@ CHECKS = {
  "C11": ("ilv", BASE + " with an every-scheduling-point monitor for acknowledgement order and an event-log oracle",
          "Bursts of 2-4 unawaited writes from 1-3 threads, queue sizes 1 and 2: each queued command dequeued exactly once, one at a time, in real-time submission order; acknowledgements complete in order at every scheduling point; statuses and final state equal the sequential application in dequeue order.",
          ILV_NOTE, "DESIGN.md §5/C11"),
- "C12": ("ilv", BASE + "; unbounded DFS for the acknowledgement micro-harness",
+ "C12": ("ilv", BASE + "; unbounded DFS for the acknowledgement micro-harness; the same micro-harness under loom",
          "All interleavings (no bound) of done(status) with 1-2 polling tasks x 1-3 polls at the granularity of the flag / status mutex / waker mutex accesses of the real CommandAcknowledgement, plus bounded exploration of whole-cache programs that await their own writes (a lost wake-up is a deadlock there).",
          "sequentially consistent atomics (argued sufficient in DESIGN §5/C12), shim Mutex = parking_lot::Mutex semantics", "DESIGN.md §5/C12"),
  "C13": ("ilv", BASE + "; lifecycle flags are scheduling points",
@@ -99,6 +99,7 @@ m = {
    {"name": "ilv", "path": "/verif/mc/src/harness/ilv.rs", "serves_properties": sorted(k for k,v in CHECKS.items() if "ilv" in v[0]), "kind_free_text": "stateless preemption-bounded exhaustive DFS over thread interleavings of the real code (shuttle runtime, own Scheduler with decision stack, replay, prefix-partitioned parallel search)"},
    {"name": "seq", "path": "/verif/mc/src/harness/seq.rs", "serves_properties": sorted(k for k,v in CHECKS.items() if "seq" in v[0]), "kind_free_text": "explicit-state breadth-first search over operation sequences on the real code with canonical-state deduplication"},
    {"name": "native-conformance", "path": "/verif/mc/src/verif_rt/native/mod.rs", "serves_properties": sorted(k for k,v in CHECKS.items() if "seq" in v[0]), "kind_free_text": "replays every sequential history (up to depth 3-4) explored by the sched build on the real parking_lot/dashmap/crossbeam-channel build and requires identical API results and canonical states"},
+   {"name": "loom-ack", "path": "/verif/mc/src/harness/loom_c12.rs", "serves_properties": ["C12"], "kind_free_text": "the acknowledgement micro-harness under loom 0.7 (all interleavings, C11 memory model with stale loads) in a third build (feature loomck)"},
    {"name": "exh", "path": "/verif/mc/src/harness/exh.rs", "serves_properties": sorted(k for k,v in CHECKS.items() if "exh" in v[0]), "kind_free_text": "exhaustive enumeration of inputs of pure components against reference models"},
  ],
  "checks": checks,
